@@ -1,6 +1,244 @@
-//! (stub) modes of this area are added here; see main.rs for the calling convention.
-use crate::Args;
+//! Stream-parser and conversion-chain modes (C02, C03, C04, C05, C18): the same op interpreter as
+//! coq/Extract/RunsStr.v, driving the real `stream::Parser` / `request::Parser`.
+use crate::proto::config;
+use crate::reqp::{feed, perr_code, req_obs};
+use crate::{arg, argn, bytes, nums, Args, PANIC};
+use fastcgi_server::parser::{self, stream};
+use fastcgi_server::protocol::{RecordType, Role};
+use std::panic::{catch_unwind, AssertUnwindSafe};
 
-pub fn dispatch(_mode: &str, _a: &Args) -> Option<Args> {
-    None
+pub fn dispatch(mode: &str, a: &Args) -> Option<Args> {
+    Some(match mode {
+        "str_run" => str_run(a),
+        "cmp_streams" => cmp_streams(a),
+        _ => return None,
+    })
+}
+
+fn stream_code(s: Option<RecordType>) -> u128 {
+    s.map_or(0, |t| u128::from(u8::from(t)))
+}
+
+/// unparsed protocol bytes, observed through a clone (into_input works at record boundaries only)
+fn raw_obs(p: &stream::Parser) -> Vec<u128> {
+    match p.clone().into_input() {
+        Ok(b) => nums(&b),
+        Err(_) => Vec::new(),
+    }
+}
+
+fn status_obs(res: &mut Args, tag: u128, e: Vec<u128>, st: (usize, bool, usize), dest: &[u8], p: &mut stream::Parser) {
+    let mut head = vec![tag];
+    head.extend(e);
+    head.extend([
+        st.0 as u128, u128::from(st.1), st.2 as u128, stream_code(p.active_stream()),
+        u128::from(p.is_record_boundary()), p.input_buffer().len() as u128,
+    ]);
+    res.push(head);
+    res.push(nums(dest));
+    res.push(nums(p.stream_buffer()));
+    res.push(nums(p.output_buffer()));
+}
+
+fn feed_amount(p: &mut stream::Parser, remaining: usize, n: u128) -> usize {
+    (n.min(usize::MAX as u128) as usize).min(p.input_buffer().len()).min(remaining)
+}
+
+/// op 6 helper; returns (collected output, code)
+fn to_boundary(p: &mut stream::Parser, wire: &[u8], pos: &mut usize) -> (Vec<u8>, u128) {
+    let mut out = Vec::new();
+    let fuel = wire.len() - *pos + 4;
+    for _ in 0..fuel {
+        let space = p.input_buffer().len();
+        let n = space.min(wire.len() - *pos);
+        p.input_buffer()[..n].copy_from_slice(&wire[*pos..*pos + n]);
+        match p.parse(n, None) {
+            Err(parser::Error::AbortRequest) => {
+                *pos += n;
+                out.extend_from_slice(p.output_buffer());
+                let l = p.output_buffer().len();
+                p.consume_output(l);
+                return (out, if p.is_record_boundary() { 0 } else { 3 });
+            },
+            Err(_) => {
+                *pos += n;
+                return (out, 2);
+            },
+            Ok(_) => {
+                *pos += n;
+                out.extend_from_slice(p.output_buffer());
+                let l = p.output_buffer().len();
+                p.consume_output(l);
+                if p.is_record_boundary() {
+                    return (out, 0);
+                }
+                if *pos == wire.len() && n == 0 {
+                    return (out, 1);
+                }
+                p.compress();
+            },
+        }
+    }
+    panic!("to_boundary: out of fuel");
+}
+
+fn str_run(a: &Args) -> Args {
+    let cfg = config(argn(a, 0) as usize, argn(a, 1) as usize);
+    let wire = bytes(&arg(a, 2));
+    let ops: Vec<Vec<u128>> = a.iter().skip(3).cloned().collect();
+    let mut res: Args = Vec::new();
+    let r = catch_unwind(AssertUnwindSafe(|| run_ops(&cfg, &wire, &ops, &mut res)));
+    if r.is_err() {
+        res.push(vec![PANIC]);
+    }
+    res
+}
+
+fn run_ops(cfg: &fastcgi_server::Config, wire: &[u8], ops: &[Vec<u128>], res: &mut Args) {
+    let mut rp = parser::request::Parser::new(cfg);
+    let mut out = Vec::new();
+    let (_done, unfed) = feed(&mut rp, wire, &[], &mut out);
+    let mut pos = wire.len() - unfed;
+    let mut p = match rp.into_stream_parser() {
+        Ok(p) => p,
+        Err(e) => {
+            let mut v = vec![2];
+            v.extend(perr_code(&e));
+            res.push(v);
+            res.push(nums(&out));
+            return;
+        },
+    };
+    res.push(vec![1, stream_code(p.active_stream()), p.input_buffer().len() as u128]);
+    res.push(nums(&out));
+    res.push(raw_obs(&p));
+
+    for op in ops {
+        let a1 = op.get(1).copied().unwrap_or(0);
+        let a2 = op.get(2).copied().unwrap_or(0);
+        match op.first().copied().unwrap_or(99) {
+            code @ (0 | 1 | 7) => {
+                if code == 1 && !p.stream_buffer().is_empty() {
+                    res.push(vec![10]);
+                    continue;
+                }
+                let n = feed_amount(&mut p, wire.len() - pos, a1);
+                p.input_buffer()[..n].copy_from_slice(&wire[pos..pos + n]);
+                pos += n;
+                let mut dest = vec![0u8; if code == 0 { 0 } else { a2 as usize }];
+                let r = if code == 0 { p.parse(n, None) } else { p.parse(n, Some(&mut dest[..])) };
+                match r {
+                    Ok(st) => {
+                        let written = if code == 0 { 0 } else { st.stream };
+                        status_obs(res, 1, vec![], (st.stream, st.stream_end, st.output), &dest[..written], &mut p);
+                    },
+                    Err(e) => status_obs(res, 2, perr_code(&e), (0, false, 0), &[], &mut p),
+                }
+            },
+            2 => {
+                p.consume_stream(a1 as usize);
+                res.push(vec![3]);
+                res.push(nums(p.stream_buffer()));
+            },
+            3 => {
+                p.compress();
+                res.push(vec![4, p.input_buffer().len() as u128]);
+                res.push(nums(p.stream_buffer()));
+            },
+            4 => {
+                p.consume_output(a1 as usize);
+                res.push(vec![5]);
+                res.push(nums(p.output_buffer()));
+            },
+            5 => {
+                let s = if a1 == 0 { None } else { Some(RecordType::try_from(a1 as u8).expect("known type")) };
+                let ok = p.set_stream(s).is_ok();
+                res.push(vec![6, u128::from(ok), stream_code(p.active_stream())]);
+                res.push(nums(p.stream_buffer()));
+            },
+            6 => {
+                p.set_stream(None).expect("None is always allowed");
+                let (out2, code) = to_boundary(&mut p, wire, &mut pos);
+                if code != 0 {
+                    res.push(vec![7, code]);
+                    res.push(nums(&out2));
+                    return;
+                }
+                match p.into_request_parser() {
+                    Err(_) => {
+                        res.push(vec![7, 5]);
+                        return;
+                    },
+                    Ok(mut rp) => {
+                        let mut out3 = Vec::new();
+                        let (done, unfed) = feed(&mut rp, &wire[pos..], &[], &mut out3);
+                        pos = wire.len() - unfed;
+                        match rp.into_stream_parser() {
+                            Ok(p3) => {
+                                res.push(vec![7, 0, u128::from(done)]);
+                                res.push(nums(&out2));
+                                res.push(nums(&out3));
+                                res.extend(req_obs(&p3.request));
+                                res.push(raw_obs(&p3));
+                                p = p3;
+                            },
+                            Err(e) => {
+                                let mut v = vec![7, 4];
+                                v.extend(perr_code(&e));
+                                res.push(v);
+                                res.push(nums(&out2));
+                                res.push(nums(&out3));
+                                return;
+                            },
+                        }
+                    },
+                }
+            },
+            8 => {
+                match p.into_input() {
+                    Ok(b) => {
+                        res.push(vec![8, 1]);
+                        res.push(nums(&b));
+                    },
+                    Err(_) => res.push(vec![8, 0]),
+                }
+                return;
+            },
+            _ => {
+                res.push(vec![999_996]);
+                return;
+            },
+        }
+    }
+    res.push(vec![9, (wire.len() - pos) as u128]);
+}
+
+/// cmp_input_streams is private; its table is observed through set_stream on a parser whose
+/// active stream is `exp`:  role, recv, exp  ->  0 (Less: rejected) / 1 (Equal) / 2 (Greater).
+fn cmp_streams(a: &Args) -> Args {
+    let role = Role::try_from(argn(a, 0) as u16).expect("role");
+    let recv = RecordType::try_from(argn(a, 1) as u8).expect("type");
+    let exp = argn(a, 2);
+    let cfg = config(64, 1);
+    let mut wire = fastcgi_server::protocol::body::BeginRequest { role, flags: 0.into() }.to_record(1).to_vec();
+    wire.extend_from_slice(&fastcgi_server::protocol::RecordHeader::new(RecordType::Params, 1).to_bytes());
+    let mut rp = parser::request::Parser::new(&cfg);
+    let mut out = Vec::new();
+    let (done, _) = feed(&mut rp, &wire, &[], &mut out);
+    assert!(done);
+    let mut p = rp.into_stream_parser().expect("stream parser");
+    // bring the parser to active stream = exp (None = 0) along the role's order
+    if exp == 0 {
+        p.set_stream(None).expect("none");
+    } else {
+        let e = RecordType::try_from(exp as u8).expect("type");
+        if p.active_stream() != Some(e) && p.set_stream(Some(e)).is_err() {
+            return vec![vec![777_777]];      // exp is not reachable for this role
+        }
+    }
+    let before = p.active_stream();
+    match p.set_stream(Some(recv)) {
+        Err(_) => vec![vec![0]],
+        Ok(()) => vec![vec![if Some(recv) == before { 1 } else { 2 }]],
+    }
 }
